@@ -99,12 +99,14 @@ Fan == [pts |-> << <<R(0),R(0)>>, <<R(4),R(0)>>, <<R(4),R(3)>>, <<R(0),R(4)>>, <
 Islands == [pts |-> << <<R(0),R(0)>>, <<R(1),R(0)>>, <<R(0),R(1)>>, <<R(3),R(3)>>, <<R(5),R(3)>>, <<R(3),R(4)>> >>, tris |-> <<<<0,1,2>>, <<3,4,5>>>>]
 Fin == [pts |-> << <<R(0),R(0),R(0)>>, <<R(2),R(0),R(0)>>, <<R(1),R(2),R(0)>>, <<R(1),R(-2),R(0)>>, <<R(1),R(0),R(2)>> >>, tris |-> <<<<0,1,2>>, <<1,0,3>>, <<0,1,4>>>>]   \* edge 0-1 shared by three triangles
 Tetra == [pts |-> << <<R(0),R(0),R(0)>>, <<R(2),R(0),R(0)>>, <<R(0),R(3),R(0)>>, <<R(0),R(0),R(1)>> >>, tris |-> <<<<0,2,1>>, <<0,1,3>>, <<1,2,3>>, <<0,3,2>>>>]   \* closed
+TetraFin == [pts |-> Tetra.pts \o << <<R(1),R(-1),R(-2)>> >>, tris |-> Tetra.tris \o << <<0,1,4>> >>]   \* closed tetrahedron + a fin on edge 0-1 (three owners)
+TwinFan == [pts |-> Fan.pts, tris |-> Fan.tris \o << <<0,1,4>> >>]                                     \* a triangle listed twice
 Grid3D == [pts |-> << <<R(0),R(0),R(1)>>, <<R(0),R(2),R(0)>>, <<R(3),R(0),R(2)>>, <<R(3),R(2),R(-1)>> >>, tris |-> <<<<0,2,3>>, <<0,3,1>>>>]
 Grid33 == [pts |-> << <<R(0),R(0)>>, <<R(0),R(1)>>, <<R(0),R(3)>>, <<R(2),R(0)>>, <<R(2),R(1)>>, <<R(2),R(3)>>, <<R(5),R(0)>>, <<R(5),R(1)>>, <<R(5),R(3)>> >>,
            tris |-> <<<<0,3,4>>, <<0,4,1>>, <<1,4,5>>, <<1,5,2>>, <<3,6,7>>, <<3,7,4>>, <<4,7,8>>, <<4,8,5>>>>]
 Octa == [pts |-> << <<R(1),R(0),R(0)>>, <<R(-1),R(0),R(0)>>, <<R(0),R(2),R(0)>>, <<R(0),R(-2),R(0)>>, <<R(0),R(0),R(3)>>, <<R(0),R(0),R(-3)>> >>,
          tris |-> <<<<0,2,4>>, <<2,1,4>>, <<1,3,4>>, <<3,0,4>>, <<2,0,5>>, <<1,2,5>>, <<3,1,5>>, <<0,3,5>>>>]     \* closed octahedron
-MeshPoolBase == [grid22 |-> Grid22, grid23 |-> Grid23, fan |-> Fan, islands |-> Islands, fin |-> Fin, tetra |-> Tetra, grid3d |-> Grid3D]
+MeshPoolBase == [tetrafin |-> TetraFin, twinfan |-> TwinFan, grid22 |-> Grid22, grid23 |-> Grid23, fan |-> Fan, islands |-> Islands, fin |-> Fin, tetra |-> Tetra, grid3d |-> Grid3D]
 MeshPool == IF Wide THEN MeshPoolBase @@ [grid33 |-> Grid33, octa |-> Octa] ELSE MeshPoolBase
 MeshClasses == {"TriMesh", "ColouredTriMesh", "TexturedTriMesh"}
 \* masking: kept triangles = all three vertices kept; vertices without a kept triangle are dropped; order-preserving renumbering
@@ -196,6 +198,7 @@ GeomSound == case.kind = "geom" => LET m == MeshPool[case.mesh] g == MeshGeom(m)
    /\ \A i \in 1..Len(m.tris) : RLt(Z0, g.areas2[i])                                       \* non-degenerate pool
    /\ \A i \in 1..Len(m.tris) : Len(m.pts[1]) = 3 => Dot(g.normals[i], VSub(m.pts[m.tris[i][2]+1], m.pts[m.tris[i][1]+1])) = Z0
    /\ (case.mesh \in {"tetra", "octa"} => \A i \in 1..Len(m.tris) : ~g.boundary[i])
+   /\ (case.mesh = "tetrafin" => g.boundary = <<FALSE, FALSE, FALSE, FALSE, TRUE>>)      \* an edge with three owners is not unshared
    /\ (case.mesh = "islands" => \A i \in 1..Len(m.tris) : g.boundary[i])
    /\ Cardinality(g.uedges) * 2 >= Len(g.edges) \div 2
 =======================================================================
